@@ -1241,9 +1241,11 @@ int _vnadata_load_touchstone(vnadata_internal_t *vdip, FILE *fp,
 	    if (next_token(&tps, F_INT) == -1) {
 		goto out;
 	    }
-	    if (tps.tps_token != T_INT || tps.u.tps_int < 0) {
+	    if (tps.tps_token != T_INT || tps.u.tps_int < 1 ||
+		    tps.u.tps_int > 16383) {
 		_vnadata_error(vdip, VNAERR_SYNTAX, "%s (line %d) error: "
-			"expected a positive integer after [Number of Ports]",
+			"expected a positive integer (at most 16383) after "
+			"[Number of Ports]",
 		    tps.tps_filename, tps.tps_line);
 		goto out;
 	    }
